@@ -8,7 +8,12 @@ git apply "$patch"
 cd /verif
 for p in "$@"; do
   echo "== $p"
-  ./jv check "$p" --tier quick 2>&1 | grep -E "^(VIOLATION|KNOWN-FINDING)" | head -5
-  echo "exit=$?"
+  ./jv check "$p" --tier quick 2>&1 | grep -E "^(VIOLATION|KNOWN-FINDING)" | head -5 > /tmp/seedtest.$$.out
+  cat /tmp/seedtest.$$.out
+  # what each replay says (the replay files are overwritten by later runs)
+  sed -n 's/^VIOLATION .*replay=\([^ ]*\).*/\1/p' /tmp/seedtest.$$.out | while read r; do
+    python3 -c "import json,sys; r=json.load(open(sys.argv[1])); print('  WHAT', (r.get('key') or ''), '|', str(r.get('what'))[:220].replace(chr(10),' '))" "$r" 2>/dev/null
+  done
+  rm -f /tmp/seedtest.$$.out
 done
 cd /repo && git checkout -- . 
